@@ -54,7 +54,7 @@ Fixpoint sem_from (window : option N) (h : hist) (p : list sym) : option (hist *
   | s :: p' => match sem_sym window h s with Some h' => sem_from window h' p' | None => None end
   end.
 Definition sem (window : option N) (p : list sym) : option (list N) :=
-  match sem_from window hist0 p with Some (h, _) => Some (rev (h_bytes h)) | None => None end.
+  match sem_from window hist0 p with Some (h, _) => Some (lrev (h_bytes h)) | None => None end.
 
 (* ---------- binarisation: symbols to (context, bit) events ---------- *)
 Inductive ev := EvBit (c : cell) (b : bool) | EvDirect (b : bool).
@@ -183,8 +183,11 @@ Definition ienc_bytes (e : ienc) (delta : N) : list N :=
 Record estate := mkEstate { es_tabs : ptabs; es_st : N; es_hist : hist }.
 Definition estate0 (p : fprops) : estate := mkEstate (ptabs_new (2 ^ (f_lc p + f_lp p))) 0 hist0.
 
-(* encode a program from a given coder state; None if the program is ill-formed *)
-Fixpoint enc_syms (p : fprops) (window : option N) (ie : ienc) (s : estate) (prog : list sym)
+(* encode a program from a given coder state; None if the program is ill-formed.
+   With [lenient] an ill-formed symbol is still encoded (its events are defined by
+   the binarisation alone) and encoding stops there: this produces the streams
+   that a decoder must reject at that point. *)
+Fixpoint enc_syms_gen (lenient : bool) (p : fprops) (window : option N) (ie : ienc) (s : estate) (prog : list sym)
   : option (ienc * estate) :=
   match prog with
   | [] => Some (ie, s)
@@ -192,27 +195,34 @@ Fixpoint enc_syms (p : fprops) (window : option N) (ie : ienc) (s : estate) (pro
       let '(evs, st') := sym_evs p (es_st s) (es_hist s) x in
       let '(ie', t') := fold_left ienc_ev evs (ie, es_tabs s) in
       match x with
-      | EndMarker => match rest with [] => Some (ie', mkEstate t' st' (es_hist s)) | _ => None end
+      | EndMarker => match rest with
+                     | [] => Some (ie', mkEstate t' st' (es_hist s))
+                     | _ => if lenient then Some (ie', mkEstate t' st' (es_hist s)) else None
+                     end
       | _ =>
           match sem_sym window (es_hist s) x with
-          | Some h' => enc_syms p window ie' (mkEstate t' st' h') rest
-          | None => None
+          | Some h' => enc_syms_gen lenient p window ie' (mkEstate t' st' h') rest
+          | None => if lenient then Some (ie', mkEstate t' st' (es_hist s)) else None
           end
       end
   end.
+Definition enc_syms := enc_syms_gen false.
 
 (* range-coded payload of a whole program, and the bytes it produces *)
-Definition enc_payload (p : fprops) (window : option N) (prog : list sym) (delta : N) : option (list N * list N) :=
-  match enc_syms p window ienc0 (estate0 p) prog with
-  | Some (ie, s) => Some (ienc_bytes ie delta, rev (h_bytes (es_hist s)))
+Definition enc_payload_gen (lenient : bool) (p : fprops) (window : option N) (prog : list sym) (delta : N) : option (list N * list N) :=
+  match enc_syms_gen lenient p window ienc0 (estate0 p) prog with
+  | Some (ie, s) => Some (ienc_bytes ie delta, lrev (h_bytes (es_hist s)))
   | None => None
   end.
+
+Definition enc_payload := enc_payload_gen false.
 
 Definition props_byte (p : fprops) : N := f_lc p + 9 * (f_lp p + 5 * f_pb p).
 
 (* a complete .lzma file: 13-byte header (size field given) and payload *)
-Definition enc_lzma (p : fprops) (dict_field : N) (size_field : N) (prog : list sym) (delta : N) : option (list N * list N) :=
-  match enc_payload p (Some (N.max dict_field 4096)) prog delta with
+Definition enc_lzma_gen (lenient : bool) (p : fprops) (dict_field : N) (size_field : N) (prog : list sym) (delta : N) : option (list N * list N) :=
+  match enc_payload_gen lenient p (Some (N.max dict_field 4096)) prog delta with
   | Some (bytes, out) => Some (props_byte p :: le_bytes 4 dict_field ++ le_bytes 8 size_field ++ bytes, out)
   | None => None
   end.
+Definition enc_lzma := enc_lzma_gen false.
